@@ -250,6 +250,42 @@ func famReduce(g *Gen) {
 	}
 	g.do(Cmd{Op: OpAlong, K: g.intn(7), T: a, Z: len(ds)})
 	g.do(Cmd{Op: OpAlong, K: g.intn(7), T: a, Z: -1})
+	// tensors DERIVED from the one that has just been reduced (a patched copy, a full slice, a reshape, a scaled
+	// copy) are reduced in turn: their statistics are those of their own elements, not of the tensor they came from
+	if !big && g.chance(0.5) {
+		g.tag("derived-after-reduce")
+		for j := 0; j < 1+g.intn(3); j++ {
+			var y int
+			var o Obs
+			switch g.intn(5) {
+			case 0, 1:
+				if len(ds) > 0 {
+					src, pidx := g.patchArgs(ds)
+					p := g.leafDistinct(src, false, 10, 20)
+					y, o = g.do(Cmd{Op: OpPatch, T: a, Ranges: pidx, U: T(p)})
+				} else {
+					y, o = g.do(Cmd{Op: OpScale, T: a, A: Dec{3, 0}})
+				}
+			case 2:
+				y, o = g.do(Cmd{Op: OpSlice, T: a, Ranges: nil})
+			case 3:
+				y, o = g.do(Cmd{Op: OpReshape, T: a, Dims: []int{prod(ds)}})
+			default:
+				y, o = g.do(Cmd{Op: OpBin, K: 8, T: a, U: T(a)})
+			}
+			if o.Kind != "tensor" {
+				continue
+			}
+			for k := 0; k < 7; k++ {
+				if g.chance(0.6) {
+					g.do(Cmd{Op: OpReduce, K: k, T: y})
+				}
+			}
+			if yd := g.shapeOf(y); len(yd) > 0 {
+				g.do(Cmd{Op: OpAlong, K: g.intn(7), T: y, Z: g.intn(len(yd))})
+			}
+		}
+	}
 }
 
 func famIndexing(g *Gen) {
